@@ -219,7 +219,7 @@ def plan_runs(ck, configs, dsets):
                      "argv": argv + report_args(wrep[k])})
     # 260 samples in one run (NS, AN, AC, AFP, ... summed over more samples than a byte can count)
     man = dsets["Gmany"]
-    for k, prog in enumerate(["call-exact", "assemble"] if ck.tier == "quick" else ["call-exact", "assemble", "call"]):
+    for k, prog in enumerate(["call-exact", "assemble", "call"]):
         argv = ["--bam"] + [s["bam"] for s in man["samples"]] + ["--ploidy", man["ploidy_file"], "--reference", man["ref"]]
         r = {"prog": prog, "report": [["AFP", "ACP"], ["AFP"], ["AOP"]][k], "ds": man["name"], "id": "m%04d" % k, "pool": None, "ref": man["ref"],
              "ploidy": {s["name"]: s["ploidy"] for s in man["samples"]}}
